@@ -1009,7 +1009,10 @@ func (r *replicateChannelHandler) AddCollection(taskID string, sourceInfo *model
 					return
 				}
 
-				r.innerHandleReplicateMsg(false, api.GetReplicateMsg(sourceInfo.PChannel, targetInfo.CollectionName, collectionID, msgPack, taskID))
+				if !r.handleReplicateMsg(false, api.GetReplicateMsg(sourceInfo.PChannel, targetInfo.CollectionName, collectionID, msgPack, taskID)) {
+					log.Warn("stop reading the stream, its task is being paused", zap.String("channel_name", sourceInfo.VChannel), zap.String("task_id", taskID))
+					return
+				}
 			}
 		}
 	}()
@@ -1279,6 +1282,11 @@ func (r *replicateChannelHandler) getTSManagerChannelKey(channelName string) str
 }
 
 func (r *replicateChannelHandler) innerHandleReplicateMsg(forward bool, msg *api.ReplicateMsg) {
+	_ = r.handleReplicateMsg(forward, msg)
+}
+
+// handleReplicateMsg returns false when the pack could not be processed (the error event has been sent)
+func (r *replicateChannelHandler) handleReplicateMsg(forward bool, msg *api.ReplicateMsg) bool {
 	if forward {
 		verifPoint("enter-forward", r.getTSManagerChannelKey(r.targetPChannel), msg)
 	} else {
@@ -1288,7 +1296,7 @@ func (r *replicateChannelHandler) innerHandleReplicateMsg(forward bool, msg *api
 	p := r.handleStreamPack(forward, msgPack, msg.TaskID, msg.PChannelName)
 	if p == nil || p == api.EmptyMsgPack {
 		verifPoint("done-empty", r.getTSManagerChannelKey(r.targetPChannel), msg)
-		return
+		return p != nil
 	}
 	p.CollectionID = msg.CollectionID
 	p.CollectionName = msg.CollectionName
@@ -1297,6 +1305,7 @@ func (r *replicateChannelHandler) innerHandleReplicateMsg(forward bool, msg *api
 	verifPoint("presend", r.getTSManagerChannelKey(r.targetPChannel), p)
 	GetTSManager().SendTargetMsg(r.getTSManagerChannelKey(r.targetPChannel), p)
 	verifPoint("done", r.getTSManagerChannelKey(r.targetPChannel), p)
+	return true
 }
 
 func (r *replicateChannelHandler) collectionSourceSeekPosition(
